@@ -29,6 +29,8 @@ def json_defaults(t):
         d += [("float", 0.5), ("intfloat", 2.0), ("int_under_float", 2), ("zero_under_float", 0), ("tinyfloat", 1e-07)]
     if b == "str":
         d += [("str", "a"), ("emptystr", "")]
+        # strings whose text reads as another Python literal: they stay strings
+        d += [("strdigits", "5"), ("strfloat", "0.5"), ("strtrue", "True"), ("strlist", "[]"), ("strset", "{1, 2}"), ("strquoted", "'x'")]
     if t.startswith("Literal["):
         d += [("str", sorted(O.literal_members(t))[0])]
     if b == "bool":
